@@ -1,4 +1,48 @@
-import PysnarkModel.Model.Prog
+import PysnarkModel.Lemmas.InvRun
+/-!
+# C04 — every reported value equals its wire expression on the recorded witness
+
+`Coh s x` : `(x.value − eval s.assign x.lc) % s.p = 0`.  Every register of the program language
+holds every intermediate and final value, so "all registers, at the end of the run" covers every
+secret-typed object the library returned at any point (coherence is monotone along the run:
+`Good.mono`).  Lists, tuples and arrays are covered element-wise (`GoodV`).
+-/
 namespace Pysnark
-example : True := trivial
+
+def C04_full : Prop :=
+  ∀ (p : Nat), p.Prime → ∀ (bl res : Nat) (prog : List Instr),
+    (∀ w, Instr.lit w ∈ prog → w.noSecret = true) →
+    ∀ out, run (St.init p bl res) prog = out → out.err = none → ∀ v ∈ out.regs, GoodV out.st v
+
+/-- proved for `Fragment`, which includes guarded regions with a false guard (where error
+suppression is on internally).  Not covered by a theorem: user-selected ignore-errors mode
+(`set ign`), nested guarded regions, and `/` in programs with a guarded region — these are covered
+by the correspondence run and the direct oracle only.  (Before the repair recorded as
+C04-div-const the last exclusion was a genuine counterexample.) -/
+theorem C04_partial (p : Nat) (hp : p.Prime) (bl res : Nat) (prog : List Instr) (hfrag : Fragment prog)
+    (hlit : ∀ w, Instr.lit w ∈ prog → w.noSecret = true)
+    (out : Out) (hout : run (St.init p bl res) prog = out) (herr : out.err = none) :
+    ∀ v ∈ out.regs, GoodV out.st v :=
+  (run_inv_plain p hp bl res prog hfrag hlit out hout herr).2
+
+/-- the linear arithmetic keeps value and wire expression in step in EVERY mode (no hypothesis on
+guards or error suppression): `+`, `-`, unary `-`, `* int`, constants, the in-place `value %= p` -/
+theorem C04_linear {s : St} {a b : LinComb} (ha : Good s a) (hb : Good s b) (c : Int) :
+    Good s (a.add b) ∧ Good s (a.sub b) ∧ Good s a.neg ∧ Good s (a.mulI c) ∧ Good s (a.addI c) ∧
+    Good s (a.rsubI c) ∧ Good s (LinComb.const c) ∧ Good s (reduceValue a s.p) :=
+  ⟨ha.add hb, ha.sub hb, ha.neg, ha.mulI c, ha.addI c, ha.rsubI c, Good.const s c, ha.reduceValue⟩
+
+/-- coherence, once established, survives everything that happens later -/
+theorem C04_monotone {s s' : St} (h : s.le s') {x : LinComb} (hx : Good s x) : Good s' x := hx.mono h
+
+/-! non-vacuity: under a false guard the comparison of out-of-range values takes the
+error-suppressed arm; all 12 registers are coherent at the end -/
+def exProg04 : List Instr :=
+  [.lit (.int 300), .mk .priv 0, .lit (.int (-7)), .mk .priv 2, .lit (.int 0), .mk .priv 4, .genter 5,
+   .bin .lt 1 3, .bin .mul 1 3, .call .assertEq 1 [3], .gleave, .bin .add 8 1]
+
+example : Fragment exProg04 ∧ (run (St.init 97 8 8) exProg04).err = none ∧
+    (run (St.init 97 8 8) exProg04).regs.length = 12 := by
+  refine ⟨⟨by decide, by decide, fun _ => by decide⟩, by decide +kernel, by decide +kernel⟩
+
 end Pysnark
